@@ -8,3 +8,71 @@ From CG Require Import Spec.LockDiscipline Gen.LockFacts.
 Theorem C11_lock_discipline_holds : lock_discipline facts = true.
 Proof. vm_compute. reflexivity. Qed.
 Print Assumptions C11_lock_discipline_holds.
+
+(* ---- the generic theorems (Model/Conc.v: n threads, one lock, critical sections made of
+   micro-steps at statement granularity; Proofs/ConcP.v), for ALL thread counts, programs and
+   schedules ---- *)
+From CG Require Import Model.Conc Proofs.ConcP Proofs.CacheInv Proofs.CacheInv2 Model.Cache Proofs.Defs.
+
+
+(* at most one thread is inside a critical section, and it holds the lock *)
+Theorem C11_mutual_exclusion : forall (St R : Type) (s0 : St) (ps : list (prog St R)) sch,
+  let c := run (init s0 ps) sch in
+  (forall i j ti tj,
+     nth_error (threads c) i = Some ti -> nth_error (threads c) j = Some tj ->
+     in_crit ti -> in_crit tj -> i = j /\ holder c = Some i) /\
+  (forall h, holder c = Some h -> exists t, nth_error (threads c) h = Some t /\ in_crit t).
+Proof. exact mutual_exclusion. Qed.
+Print Assumptions C11_mutual_exclusion.
+
+(* every complete execution, under every interleaving, has the final shared state and the
+   per-thread results of the serial execution of the critical sections in lock-acquisition order *)
+Theorem C11_serializable_all_schedules : forall (St R : Type) (s0 : St) (ps : list (prog St R)) sch,
+  let c := run (init s0 ps) sch in
+  all_done c = true ->
+  holder c = None /\
+  sh c = fst (serial s0 (acq c)) /\
+  rel c = snd (serial s0 (acq c)) /\
+  (forall i t, nth_error (threads c) i = Some t ->
+     t_res t = by_thread i (snd (serial s0 (acq c)))) /\
+  (forall i p, nth_error ps i = Some p -> by_thread i (acq c) = crits_of p).
+Proof. exact C11_serializable. Qed.
+Print Assumptions C11_serializable_all_schedules.
+
+(* no deadlock: while not everybody is done some thread can step, and from every reachable
+   configuration a completing schedule exists *)
+Theorem C11_no_deadlock : forall (St R : Type) (s0 : St) (ps : list (prog St R)) sch,
+  let c := run (init s0 ps) sch in
+  all_done c = false ->
+  match holder c with
+  | Some h => step c h <> None
+  | None => forall i t, nth_error (threads c) i = Some t -> finished t = false -> step c i <> None
+  end /\
+  exists i, (i < length ps)%nat /\ step c i <> None.
+Proof. exact no_deadlock. Qed.
+Print Assumptions C11_no_deadlock.
+
+(* instantiated with the cache (keyed static source with unique keys): under every
+   interleaving every thread's every result is the source's slice, and afterwards the cache
+   still answers every bounded query with the source's slice *)
+Theorem C11_cache_results_eq_source : forall evs ttl tick t0,
+  src_ok evs -> ttl > 0 -> tick >= 0 ->
+  forall qps sch, Forall (Forall (qwf evs ttl tick)) qps ->
+  let c := run (cinit_cfg t0 qps) sch in
+  all_done c = true ->
+  forall i qp t, nth_error qps i = Some qp -> nth_error (threads c) i = Some t ->
+    Forall2 (c09_result evs) (fetches qp) (t_res t).
+Proof. exact C11_results_eq_source. Qed.
+Print Assumptions C11_cache_results_eq_source.
+
+Theorem C11_cache_afterwards_correct : forall evs ttl tick t0,
+  src_ok evs -> ttl > 0 -> tick >= 0 ->
+  forall qps sch, Forall (Forall (qwf evs ttl tick)) qps ->
+  let c := run (cinit_cfg t0 qps) sch in
+  all_done c = true ->
+  forall a b rv s' out log,
+    NEG_INF < a -> a < b -> b < POS_INF ->
+    cquery false ttl tick (src_of evs 0) (sh c) a b rv = (s', out, log) ->
+    c09_result evs (a, b, rv) out.
+Proof. exact C11_afterwards_correct. Qed.
+Print Assumptions C11_cache_afterwards_correct.
